@@ -170,15 +170,25 @@ def run_bulk(case):
             add(f"C11:{type(e).__name__}:bulk:read_runtime_data:{fam}", f"{what}: read_runtime_data raised {e!r}")
         if fam in ("ET", "ES"):
             try:
+                if fam == "ET" and (case["seed"] + case["k"]) % 3 == 0:
+                    # this inverter does not have some of the optional settings (their registers are refused with
+                    # ILLEGAL DATA ADDRESS): the bulk read must still report every id it covers
+                    sts = [x for x in inv.settings() if x.offset >= 45000]
+                    for j in range(1 + case["seed"] % 3):
+                        x = sts[(case["seed"] * 7 + j * 13) % len(sts)]
+                        dev.exc_map.append((x.offset, x.offset + max(1, (x.size_ + 1) // 2) - 1, 2))
+                    stats["refused_settings"] = stats.get("refused_settings", 0) + 1
+                ids0 = {s.id_ for s in inv.settings()}
                 sdata = await inv.read_settings_data()
+                ids1 = {s.id_ for s in inv.settings()}
                 sdata2 = await inv.read_settings_data()
-                if set(sdata2) != set(sdata):
-                    add(f"C11:keys:settings-second-poll:{fam}", f"{what}: second settings read has other keys: "
-                        f"{sorted(set(sdata2) ^ set(sdata))[:6]}")
+                if set(sdata2) != ids1:
+                    add(f"C11:keys:settings-second-poll:{fam}", f"{what}: second settings read has other keys than "
+                        f"settings() listed before it: {sorted(set(sdata2) ^ ids1)[:6]}")
                 stats["bulk_calls"] += 1
-                ids = {s.id_ for s in inv.settings()}
-                if set(sdata) != ids:
-                    add(f"C11:keys:settings:{fam}", f"{what}: settings keys differ from settings(): {sorted(set(sdata) ^ ids)[:6]}")
+                if set(sdata) != ids0:
+                    add(f"C11:keys:settings:{fam}", f"{what}: settings keys differ from settings() as listed before the "
+                        f"call: {sorted(set(sdata) ^ ids0)[:6]}")
                 stats["none_values"] += sum(1 for v in sdata.values() if v is None)
             except ge.InverterError as e:
                 add(f"C11:inverter-error:settings:{fam}", f"{what}: read_settings_data raised {e!r}")
